@@ -115,7 +115,7 @@ static int _GD_SetFieldAffixes(DIRFILE *D, const struct parser_state *p, int me,
         return 1;
       }
 
-      if (D->fragment[me].ns == NULL) {
+      if (D->fragment[me].nsl == 0) {
         *nsl = nsinl;
         *ns = _GD_Malloc(D, nsinl + 1);
         if (*ns) {
